@@ -65,181 +65,215 @@ func ServicePortDesignation(p *core.Program, r *core.Report, rule string) {
 		return
 	}
 	req := sig.Params().At(1)
-	isReq := func(e ast.Expr, field string) bool {
-		e = ast.Unparen(e)
-		if field == "" {
-			id, ok := e.(*ast.Ident)
-			return ok && info.ObjectOf(id) == req
+	// The decision table is read off the path conditions (helpers inlined), not off one if-statement. Canonical atoms:
+	//   svc:nameEq   <ServicePort>.Name == required.StrVal        svc:nameEmpty  <ServicePort>.Name == ""
+	//   svc:portEq   <ServicePort>.Port == required.IntVal        svc:targetEq   <ServicePort>.TargetPort == required
+	//   req:intZero  required.IntVal == 0                         req:strEmpty   required.StrVal == ""
+	w := facts.NewWalker(info)
+	w.Inline = true
+	reqPath := func() string { return w.PathOfVar(req) }
+	w.Atomize = func(w *facts.Walker, e ast.Expr) facts.Formula {
+		be, ok := e.(*ast.BinaryExpr)
+		if !ok || (be.Op != token.EQL && be.Op != token.NEQ) {
+			return nil
 		}
-		se, ok := e.(*ast.SelectorExpr)
-		if !ok || se.Sel.Name != field {
-			return false
+		in := w.Info
+		isReq := func(x ast.Expr, field string) bool {
+			pth := facts.StripVersions(w.Path(x))
+			if field == "" {
+				return pth == facts.StripVersions(reqPath())
+			}
+			return pth == facts.StripVersions(reqPath())+"."+field
 		}
-		id, ok := ast.Unparen(se.X).(*ast.Ident)
-		return ok && info.ObjectOf(id) == req
+		isSvc := func(x ast.Expr, field string) bool { return fieldPathEndsWith(in, x, "ServicePort", field) }
+		isConst := func(x ast.Expr, v string) bool { c, isC := core.ConstString(in, x); return isC && c == v }
+		x, y := ast.Unparen(be.X), ast.Unparen(be.Y)
+		var at string
+		for k := 0; k < 2 && at == ""; k++ {
+			switch {
+			case isSvc(x, "Name") && isReq(y, "StrVal"):
+				at = "svc:nameEq"
+			case isSvc(x, "Name") && isConst(y, ""):
+				at = "svc:nameEmpty"
+			case isSvc(x, "Port") && isReq(y, "IntVal"):
+				at = "svc:portEq"
+			case isSvc(x, "TargetPort") && isReq(y, ""):
+				at = "svc:targetEq"
+			case isReq(x, "IntVal") && isConst(y, "0"):
+				at = "req:intZero"
+			case isReq(x, "StrVal") && isConst(y, ""):
+				at = "req:strEmpty"
+			}
+			x, y = y, x
+		}
+		if at == "" {
+			return nil
+		}
+		if be.Op == token.NEQ {
+			return facts.Not{X: facts.Atom(at)}
+		}
+		return facts.Atom(at)
 	}
-	// the range loop over the service ports
-	var loop *ast.RangeStmt
-	ast.Inspect(fd.Decl.Body, func(n ast.Node) bool {
-		if rs, ok := n.(*ast.RangeStmt); ok && loop == nil {
-			if id, isID := ast.Unparen(rs.X).(*ast.Ident); isID && info.ObjectOf(id) == sig.Params().At(0) {
-				loop = rs
+	// the exits inside the loop over the service ports: a designated port was found
+	var desig facts.Formula = facts.False{}
+	var firstExit ast.Node
+	loopSeen := false
+	w.OnStmt = func(st ast.Stmt, f facts.Formula) {
+		if rs, ok := st.(*ast.RangeStmt); ok {
+			if id, isID := ast.Unparen(rs.X).(*ast.Ident); isID && info.ObjectOf(id) == types.Object(sig.Params().At(0)) {
+				loopSeen = true
 			}
 		}
-		return true
-	})
-	if loop == nil {
+	}
+	w.OnExit = func(st int, ret *ast.ReturnStmt, f facts.Formula) {
+		if w.FuncLitDepth > 0 || ret == nil || len(w.Loops) == 0 || !facts.Satisfiable(f) {
+			return
+		}
+		if firstExit == nil {
+			firstExit = ret
+		}
+		desig = facts.MkOr(desig, f)
+	}
+	w.WalkBody(fd.Decl.Body, nil)
+	if !loopSeen {
 		r.Bad(rule, fd.Key()+": iterates over the service's ports", p.Pos(fd.Decl.Pos()), "no range over the service ports parameter")
 		return
 	}
-	// 1. the matching condition: find the if whose condition mentions the required port and a ServicePort field
-	var match *ast.IfStmt
-	ast.Inspect(loop.Body, func(n ast.Node) bool {
-		ifs, ok := n.(*ast.IfStmt)
-		if !ok {
-			return true
-		}
-		mentionsReq, mentionsSvc := false, false
-		ast.Inspect(ifs.Cond, func(m ast.Node) bool {
-			if id, ok := m.(*ast.Ident); ok && info.ObjectOf(id) == req {
-				mentionsReq = true
-			}
-			if se, ok := m.(*ast.SelectorExpr); ok {
-				if f := core.FieldOf(info, se); f != nil && (f.Name() == "Port" || f.Name() == "Name") && fieldPathEndsWith(info, se, "ServicePort", f.Name()) {
-					mentionsSvc = true
-				}
-			}
-			return true
-		})
-		if mentionsReq && mentionsSvc && match == nil {
-			match = ifs
-		}
-		return true
-	})
-	if match == nil {
-		r.Bad(rule, fd.Key()+": a specified backend port is matched against the service ports", p.Pos(loop.Pos()), "no condition comparing the required port with a service port's name/number")
+	if firstExit == nil {
+		r.Bad(rule, fd.Key()+": a specified backend port is matched against the service ports", p.Pos(fd.Decl.Pos()), "no exit inside the loop over the service ports: a designated port does not end the search")
 		return
 	}
-	var haveName, havePort, haveTarget, targetGuarded bool
-	var unknown []string
-	for _, conj := range dnf(match.Cond) {
-		kind := ""
-		hasDiscriminator := false
-		nonEmptyName := false
-		for _, a := range conj {
-			a = ast.Unparen(a)
-			be, ok := a.(*ast.BinaryExpr)
-			if !ok {
-				// a boolean value: a discriminator (e.g. "this port comes from a Route")
-				if tv, ok := info.Types[a]; ok && tv.Type != nil {
-					if b, isB := tv.Type.Underlying().(*types.Basic); isB && b.Kind() == types.Bool {
-						hasDiscriminator = true
-						continue
-					}
-				}
-				kind = "?" + core.ExprStr(a)
+	nameEq, nameEmpty, portEq, targetEq := facts.Atom("svc:nameEq"), facts.Atom("svc:nameEmpty"), facts.Atom("svc:portEq"), facts.Atom("svc:targetEq")
+	only := func(a facts.Formula, others ...facts.Formula) facts.Formula {
+		f := facts.MkAnd(desig, a)
+		for _, o := range others {
+			f = facts.MkAnd(f, facts.MkNot(o))
+		}
+		return f
+	}
+	byName := only(nameEq, portEq, targetEq)
+	haveName := facts.Satisfiable(byName) && facts.Entails(byName, facts.MkNot(nameEmpty))
+	havePort := facts.Satisfiable(only(portEq, nameEq, targetEq))
+	byTarget := only(targetEq, nameEq, portEq)
+	haveTarget := facts.Satisfiable(byTarget)
+	// a discriminator: any further proposition that every targetPort-only designation entails
+	targetGuarded := false
+	if haveTarget {
+		for _, a := range facts.Atoms(byTarget) {
+			if strings.HasPrefix(a, "svc:") || strings.HasPrefix(a, "req:") {
 				continue
 			}
-			x, y := be.X, be.Y
-			sw := func(f func(a, b ast.Expr) bool) bool { return f(x, y) || f(y, x) }
-			switch {
-			case be.Op == token.EQL && sw(func(a, b ast.Expr) bool {
-				return fieldPathEndsWith(info, a, "ServicePort", "Name") && isReq(b, "StrVal")
-			}):
-				kind = "name"
-			case be.Op == token.NEQ && sw(func(a, b ast.Expr) bool {
-				v, isC := core.ConstString(info, b)
-				return fieldPathEndsWith(info, a, "ServicePort", "Name") && isC && v == ""
-			}):
-				nonEmptyName = true
-			case be.Op == token.NEQ && sw(func(a, b ast.Expr) bool {
-				v, isC := core.ConstString(info, b)
-				return isReq(a, "StrVal") && isC && v == ""
-			}):
-				nonEmptyName = true
-			case be.Op == token.EQL && sw(func(a, b ast.Expr) bool {
-				return fieldPathEndsWith(info, a, "ServicePort", "Port") && isReq(b, "IntVal")
-			}):
-				kind = "port"
-			case be.Op == token.EQL && sw(func(a, b ast.Expr) bool {
-				return fieldPathEndsWith(info, a, "ServicePort", "TargetPort") && isReq(b, "")
-			}):
-				kind = "target"
-			default:
-				// comparisons of a discriminator (x == true, origin == route)
-				mentions := false
-				ast.Inspect(a, func(m ast.Node) bool {
-					if id, ok := m.(*ast.Ident); ok && info.ObjectOf(id) == req {
-						mentions = true
+			if facts.Entails(byTarget, facts.Atom(a)) || facts.Entails(byTarget, facts.MkNot(facts.Atom(a))) {
+				// it must say something about where the required port comes from: mention a parameter other than the
+				// list of service ports (or a local derived from one) - not the loop's own bookkeeping
+				txt := facts.StripVersions(a)
+				isId := func(c byte) bool {
+					return c == '_' || c >= '0' && c <= '9' || c >= 'a' && c <= 'z' || c >= 'A' && c <= 'Z'
+				}
+				for k := 0; k < len(txt); {
+					if isId(txt[k]) && !(txt[k] >= '0' && txt[k] <= '9') {
+						e := k
+						for e < len(txt) && isId(txt[e]) {
+							e++
+						}
+						if k == 0 || txt[k-1] != '.' {
+							if o := objNamed(fd, txt[k:e]); o != nil && paramOrigin(fd, o, 0) >= 1 {
+								targetGuarded = true
+							}
+						}
+						k = e
+						continue
 					}
-					if se, ok := m.(*ast.SelectorExpr); ok && (fieldPathEndsWith(info, se, "ServicePort", "Port") || fieldPathEndsWith(info, se, "ServicePort", "Name") || fieldPathEndsWith(info, se, "ServicePort", "TargetPort")) {
-						mentions = true
-					}
-					return true
-				})
-				if mentions {
-					kind = "?" + core.ExprStr(a)
-				} else {
-					hasDiscriminator = true
+					k++
 				}
 			}
 		}
-		switch {
-		case kind == "name":
-			if nonEmptyName {
-				haveName = true
-			} else {
-				unknown = append(unknown, "name comparison without the non-empty guard (an unnamed service port would match a numeric backend port)")
-			}
-		case kind == "port":
-			havePort = true
-		case kind == "target":
-			haveTarget = true
-			targetGuarded = hasDiscriminator
-		default:
-			var parts []string
-			for _, a := range conj {
-				parts = append(parts, core.ExprStr(a))
-			}
-			unknown = append(unknown, strings.Join(parts, " && "))
-		}
 	}
-	r.Check(haveName, rule, fd.Key()+": a backend port name designates the service port of that (non-empty) name", p.Pos(match.Pos()), "svcPort.Name != \"\" && svcPort.Name == required.StrVal", "the match condition has no (guarded) comparison of the service port's name with the required name")
-	r.Check(havePort, rule, fd.Key()+": a backend port number designates the service port with that number", p.Pos(match.Pos()), "svcPort.Port == required.IntVal", "the match condition has no comparison of the service port's number with the required number")
-	r.Check(len(unknown) == 0, rule, fd.Key()+": no other way to designate a service port", p.Pos(match.Pos()), "", "the match condition has further disjuncts: "+strings.Join(unknown, " | "))
+	otherWays := !facts.Entails(desig, facts.MkOr(nameEq, facts.MkOr(portEq, targetEq)))
+	matchPos := p.Pos(firstExit.Pos())
+	r.Check(haveName, rule, fd.Key()+": a backend port name designates the service port of that (non-empty) name", matchPos, "svcPort.Name != \"\" && svcPort.Name == required.StrVal", "no designation by a (guarded, non-empty) comparison of the service port's name with the required name")
+	r.Check(havePort, rule, fd.Key()+": a backend port number designates the service port with that number", matchPos, "svcPort.Port == required.IntVal", "no designation by a comparison of the service port's number with the required number")
+	r.Check(!otherWays, rule, fd.Key()+": no other way to designate a service port", matchPos, "", "a service port can be designated without matching the required name, number (or targetPort): "+facts.StripVersions(facts.String(desig)))
 	if haveTarget {
-		r.Check(targetGuarded, rule, fd.Key()+": matching a required port against the service port's targetPort is restricted to Route-designated ports", p.Pos(match.Pos()), "the targetPort comparison is conjoined with an origin discriminator",
+		r.Check(targetGuarded, rule, fd.Key()+": matching a required port against the service port's targetPort is restricted to Route-designated ports", matchPos, "the targetPort comparison is conjoined with an origin discriminator",
 			"`svcPort.TargetPort == requiredPort` is applied to every required port, including the port number of a k8s Ingress backend (getServiceInfo builds it with the zero Type, i.e. as a number): an Ingress backend `port: {number: N}` designates a service port whose *targetPort* is N even when its `port` differs, instead of the service port numbered N (or none)")
+	}
+	// the function and the module helpers it calls directly (a block may have been extracted)
+	scope := []*core.FuncDecl{fd}
+	for _, callee := range p.CalleesOf(fd) {
+		if hd := p.ByObj[callee]; hd != nil && hd.Pkg.PkgPath == fd.Pkg.PkgPath && hd != fd {
+			scope = append(scope, hd)
+			for _, c2 := range p.CalleesOf(hd) {
+				if h2 := p.ByObj[c2]; h2 != nil && h2.Pkg.PkgPath == fd.Pkg.PkgPath && h2 != fd && h2 != hd {
+					scope = append(scope, h2)
+				}
+			}
+		}
 	}
 	// 2. the pod access port: targetPort, defaulting to the port
 	{
 		var okTarget, okDefault bool
-		ast.Inspect(loop.Body, func(n ast.Node) bool {
-			as, ok := n.(*ast.AssignStmt)
-			if !ok || len(as.Lhs) != 1 || len(as.Rhs) != 1 {
-				return true
-			}
-			if fieldPathEndsWith(info, as.Rhs[0], "ServicePort", "TargetPort") {
-				// under "targetPort is set"
-				fm, _, found := FactsAt(fd, as, nil)
-				if found {
-					txt := facts.StripVersions(facts.String(fm))
-					okTarget = strings.Contains(txt, "TargetPort.IntVal==0") && strings.Contains(txt, "TargetPort.StrVal")
+		for _, g := range scope {
+			ginfo := g.Pkg.TypesInfo
+			gw := facts.NewWalker(ginfo)
+			gw.Inline = true
+			gw.OnStmt = func(st ast.Stmt, f facts.Formula) {
+				var vals []ast.Expr
+				switch x := st.(type) {
+				case *ast.AssignStmt:
+					if len(x.Lhs) == 1 && len(x.Rhs) == 1 {
+						vals = append(vals, x.Rhs[0])
+						if fieldPathEndsWith(ginfo, x.Rhs[0], "ServicePort", "Port") {
+							if se, isSe := ast.Unparen(x.Lhs[0]).(*ast.SelectorExpr); isSe && se.Sel.Name == "IntVal" {
+								okDefault = true
+							}
+						}
+					}
+				case *ast.ReturnStmt:
+					vals = append(vals, x.Results...)
+				}
+				for _, v := range vals {
+					if fieldPathEndsWith(ginfo, v, "ServicePort", "TargetPort") {
+						txt := facts.StripVersions(facts.String(f))
+						if strings.Contains(txt, "TargetPort.IntVal==0") && strings.Contains(txt, "TargetPort.StrVal") {
+							okTarget = true
+						}
+					}
+					ast.Inspect(v, func(m ast.Node) bool {
+						switch y := m.(type) {
+						case *ast.KeyValueExpr:
+							if id, isId := y.Key.(*ast.Ident); isId && id.Name == "IntVal" && fieldPathEndsWith(ginfo, y.Value, "ServicePort", "Port") {
+								okDefault = true
+							}
+						case *ast.CallExpr:
+							if fn := core.Callee(ginfo, y); fn != nil && fn.Pkg() != nil && strings.HasSuffix(fn.Pkg().Path(), "util/intstr") && strings.HasPrefix(fn.Name(), "FromInt") && len(y.Args) == 1 {
+								a := ast.Unparen(y.Args[0])
+								if c, isC := a.(*ast.CallExpr); isC && core.IsConversion(ginfo, c) {
+									a = c.Args[0]
+								}
+								if fieldPathEndsWith(ginfo, a, "ServicePort", "Port") {
+									okDefault = true
+								}
+							}
+						}
+						return true
+					})
 				}
 			}
-			if fieldPathEndsWith(info, as.Rhs[0], "ServicePort", "Port") {
-				if se, isSe := ast.Unparen(as.Lhs[0]).(*ast.SelectorExpr); isSe && se.Sel.Name == "IntVal" {
-					okDefault = true
-				}
-			}
-			return true
-		})
-		r.Check(okTarget && okDefault, rule, fd.Key()+": the pod port is the service port's targetPort, defaulting to its port", p.Pos(loop.Pos()), "", "the access port is no longer `targetPort if set else port`")
+			gw.WalkBody(g.Decl.Body, nil)
+		}
+		r.Check(okTarget && okDefault, rule, fd.Key()+": the pod port is the service port's targetPort, defaulting to its port", matchPos, "", "the access port is no longer `targetPort if set else port`")
 	}
 	// 3. an unspecified required port selects all service ports
 	{
-		s := core.ExprStr(fd.Decl.Body)
-		r.Check(strings.Contains(s, "IntVal == 0 && ") && strings.Contains(s, `StrVal == ""`), rule, fd.Key()+": an unspecified backend port (Route without port) selects every service port", p.Pos(fd.Decl.Pos()), "", "the empty-required-port test changed")
+		okEmpty := false
+		for _, g := range scope {
+			s := core.ExprStr(g.Decl.Body)
+			if strings.Contains(s, "IntVal == 0 && ") && strings.Contains(s, `StrVal == ""`) {
+				okEmpty = true
+			}
+		}
+		r.Check(okEmpty, rule, fd.Key()+": an unspecified backend port (Route without port) selects every service port", p.Pos(fd.Decl.Pos()), "", "the empty-required-port test changed")
 	}
 	// 4. how an Ingress backend's port is turned into the required port
 	if gs := p.Func(core.PkgIngress, "", "getServiceInfo"); gs != nil {
@@ -468,59 +502,75 @@ func IngressTCPOnly(p *core.Program, r *core.Report, rule string) {
 	// the filter of container ports by protocol depends on the element
 	if pf := p.Func(core.PkgK8s, "Pod", "PodExposedTCPConnections"); pf != nil {
 		pinfo := pf.Pkg.TypesInfo
-		var rs *ast.RangeStmt
-		ast.Inspect(pf.Decl.Body, func(n ast.Node) bool {
-			if x, ok := n.(*ast.RangeStmt); ok && rs == nil {
-				rs = x
+		// decided where the connection is recorded inside the loop: the path condition entails that the container port's
+		// OWN protocol is unset or TCP (canonical atoms by the value it is compared with; a local or constant that
+		// holds the value is unfolded)
+		pw := facts.NewWalker(pinfo)
+		pw.Inline = true
+		valueOf := func(e ast.Expr) (string, bool) {
+			if v, isC := core.ConstString(pinfo, e); isC {
+				return v, true
 			}
-			return true
-		})
-		ok := false
-		why := "no loop over the container ports"
-		if rs != nil {
-			var elem types.Object
-			if id, isID := rs.Value.(*ast.Ident); isID {
-				elem = pinfo.ObjectOf(id)
-			} else if id, isID := rs.Key.(*ast.Ident); isID {
-				elem = pinfo.ObjectOf(id)
-			}
-			why = "no protocol test on the element"
-			ast.Inspect(rs.Body, func(n ast.Node) bool {
-				ifs, isIf := n.(*ast.IfStmt)
-				if !isIf {
-					return true
-				}
-				protoReads := 0
-				ast.Inspect(ifs.Cond, func(m ast.Node) bool {
-					if se, isSe := m.(*ast.SelectorExpr); isSe && fieldPathEndsWith(pinfo, se, "ContainerPort", "Protocol") {
-						if id := core.RootIdent(se); id != nil && (pinfo.ObjectOf(id) == elem || elem == nil) {
-							protoReads++
-						}
-					}
-					return true
-				})
-				// every disjunct must read the element's protocol
-				all := true
-				for _, d := range flattenOr(ifs.Cond) {
-					reads := false
-					ast.Inspect(d, func(m ast.Node) bool {
-						if se, isSe := m.(*ast.SelectorExpr); isSe && fieldPathEndsWith(pinfo, se, "ContainerPort", "Protocol") {
-							reads = true
-						}
-						return true
-					})
-					if !reads {
-						all = false
+			if id, isId := ast.Unparen(e).(*ast.Ident); isId {
+				if d, _ := defOf(pf, id); d != nil {
+					if v, isC := core.ConstString(pinfo, d); isC {
+						return v, true
 					}
 				}
-				if protoReads > 0 && all {
-					ok = true
-				} else if protoReads == 0 || !all {
-					why = "a disjunct of the protocol filter does not depend on the container port: `" + core.ExprStr(ifs.Cond) + "`"
-				}
-				return true
-			})
+			}
+			return "", false
 		}
+		pw.Atomize = func(w *facts.Walker, e ast.Expr) facts.Formula {
+			be, isBE := e.(*ast.BinaryExpr)
+			if !isBE || (be.Op != token.EQL && be.Op != token.NEQ) {
+				return nil
+			}
+			x, y := ast.Unparen(be.X), ast.Unparen(be.Y)
+			if !fieldPathEndsWith(pinfo, x, "ContainerPort", "Protocol") {
+				x, y = y, x
+			}
+			if !fieldPathEndsWith(pinfo, x, "ContainerPort", "Protocol") {
+				return nil
+			}
+			v, known := valueOf(y)
+			if !known {
+				return nil
+			}
+			var at facts.Formula = facts.Atom("cproto:" + w.Path(x) + "=" + v)
+			if be.Op == token.NEQ {
+				at = facts.MkNot(at)
+			}
+			return at
+		}
+		ok := false
+		why := "no connection is recorded inside a loop over the container ports"
+		pw.OnExpr = func(e ast.Expr, f facts.Formula) {
+			c, isC := e.(*ast.CallExpr)
+			if !isC || len(pw.Loops) == 0 {
+				return
+			}
+			if fn := core.Callee(pinfo, c); fn == nil || fn.Name() != "AddConnection" {
+				return
+			}
+			var unset, tcp facts.Formula = facts.False{}, facts.False{}
+			for _, a := range facts.Atoms(f) {
+				if strings.HasPrefix(a, "cproto:") {
+					switch {
+					case strings.HasSuffix(a, "="):
+						unset = facts.MkOr(unset, facts.Atom(a))
+					case strings.HasSuffix(a, "=TCP"):
+						tcp = facts.MkOr(tcp, facts.Atom(a))
+					}
+				}
+			}
+			if facts.Entails(f, facts.MkOr(unset, tcp)) {
+				ok = true
+			} else {
+				ok = false
+				why = "a container port is recorded as an exposed TCP port on a path (" + facts.StripVersions(facts.String(f)) + ") that does not establish that its own protocol is unset or TCP"
+			}
+		}
+		pw.WalkBody(pf.Decl.Body, nil)
 		r.Check(ok, rule, pf.Key()+": the TCP filter of container ports tests each port's own protocol", p.Pos(pf.Decl.Pos()), "", why)
 	} else {
 		r.Lost(rule, "(*Pod).PodExposedTCPConnections")
@@ -540,27 +590,62 @@ func IngressPolicyIntersection(p *core.Program, r *core.Report, rule string) {
 		r.Lost(rule, "SSA of getIngressAllowedConnections")
 		return
 	}
+	// the function that intersects: getIngressAllowedConnections itself, or a helper of the package it calls with the
+	// fake pod (the per-workload part of the loop body may have been extracted)
 	var addPod, allowed, inter, isEmpty, warn, create *ssa.Call
-	for _, b := range sf.Blocks {
-		for _, in := range b.Instrs {
-			c, ok := in.(*ssa.Call)
-			if !ok {
-				continue
+	scan := func(f *ssa.Function) {
+		for _, b := range f.Blocks {
+			for _, in := range b.Instrs {
+				c, ok := in.(*ssa.Call)
+				if !ok {
+					continue
+				}
+				_, n := ssaCalleeName(c.Common())
+				switch n {
+				case "AddPodByNameAndNamespace":
+					addPod = c
+				case "AllAllowedConnectionsBetweenWorkloadPeers":
+					allowed = c
+				case "Intersection":
+					inter = c
+				case "IsEmpty":
+					isEmpty = c
+				case "warnBlockedIngress":
+					warn = c
+				case "createConnectionObject":
+					create = c
+				}
 			}
-			_, n := ssaCalleeName(c.Common())
-			switch n {
-			case "AddPodByNameAndNamespace":
-				addPod = c
-			case "AllAllowedConnectionsBetweenWorkloadPeers":
-				allowed = c
-			case "Intersection":
-				inter = c
-			case "IsEmpty":
-				isEmpty = c
-			case "warnBlockedIngress":
-				warn = c
-			case "createConnectionObject":
-				create = c
+		}
+	}
+	scan(sf)
+	coreFn := sf
+	var coreCall *ssa.Call
+	if inter == nil {
+		for _, b := range sf.Blocks {
+			for _, in := range b.Instrs {
+				c, ok := in.(*ssa.Call)
+				if !ok {
+					continue
+				}
+				callee := c.Common().StaticCallee()
+				if callee == nil || callee.Pkg == nil || callee.Pkg.Pkg.Path() != core.PkgConnlist || len(callee.Blocks) == 0 || inter != nil {
+					continue
+				}
+				hasInter := false
+				for _, hb := range callee.Blocks {
+					for _, hin := range hb.Instrs {
+						if hc, isC := hin.(*ssa.Call); isC {
+							if _, n := ssaCalleeName(hc.Common()); n == "Intersection" {
+								hasInter = true
+							}
+						}
+					}
+				}
+				if hasInter {
+					scan(callee)
+					coreFn, coreCall = callee, c
+				}
 			}
 		}
 	}
@@ -580,9 +665,24 @@ func IngressPolicyIntersection(p *core.Program, r *core.Report, rule string) {
 		}
 		r.Check(ok, rule, fd.Key()+": the ingress controller is a fixed fake pod", p.Pos(addPod.Pos()), "constant name and namespace", "the ingress-controller pod's name/namespace are not the constants")
 	}
-	ingressPod := func(v ssa.Value) bool {
+	isFakePod := func(v ssa.Value) bool {
 		ex, ok := v.(*ssa.Extract)
 		return ok && ex.Tuple == ssa.Value(addPod) && ex.Index == 0
+	}
+	ingressPod := func(v ssa.Value) bool {
+		v = stripIface(v)
+		if isFakePod(v) {
+			return true
+		}
+		// in the helper: the parameter that receives the fake pod at the call
+		if prm, ok := v.(*ssa.Parameter); ok && coreCall != nil {
+			for k, fp := range coreFn.Params {
+				if fp == prm && k < len(coreCall.Call.Args) {
+					return isFakePod(stripIface(coreCall.Call.Args[k]))
+				}
+			}
+		}
+		return false
 	}
 	// the peer: field Peer of the ranged entry
 	peerOf := func(v ssa.Value) ssa.Value {
@@ -620,11 +720,21 @@ func IngressPolicyIntersection(p *core.Program, r *core.Report, rule string) {
 		ib := isEmpty.Block()
 		iff, isIf := ib.Instrs[len(ib.Instrs)-1].(*ssa.If)
 		okRow = isIf && iff.Cond == ssa.Value(isEmpty) && ib.Succs[1].Dominates(create.Block()) && ib.Succs[0].Dominates(warn.Block()) && !ib.Succs[0].Dominates(create.Block())
-		// the warning arm goes back to the loop head (continue): it never reaches the row construction
-		for _, s := range warn.Block().Succs {
-			if !s.Dominates(ib) {
+		// the warning arm never reaches the row construction without going through the emptiness test again (it goes
+		// back to the loop head, or returns)
+		seen := map[*ssa.BasicBlock]bool{ib: true}
+		work := []*ssa.BasicBlock{warn.Block()}
+		for len(work) > 0 {
+			b := work[len(work)-1]
+			work = work[:len(work)-1]
+			if seen[b] {
+				continue
+			}
+			seen[b] = true
+			if b == create.Block() {
 				okRow = false
 			}
+			work = append(work, b.Succs...)
 		}
 	}
 	r.Check(okRow, rule, fd.Key()+": a line is reported exactly for a non-empty intersection, from the fake pod to that workload; an empty one yields the warning", p.Pos(create.Pos()), "", "row construction / warning are not the two arms of the emptiness test of the intersected set")
@@ -716,37 +826,82 @@ func IngressNamespaceScoping(p *core.Program, r *core.Report, rule string) {
 		}
 		info := fd.Pkg.TypesInfo
 		prm := fd.Obj.Type().(*types.Signature).Params().At(0)
-		ok := false
-		ast.Inspect(fd.Decl.Body, func(n ast.Node) bool {
-			as, isAs := n.(*ast.AssignStmt)
-			if !isAs || len(as.Lhs) != 1 {
-				return true
+		isObjField := func(e ast.Expr, name string) bool {
+			se, isSe := ast.Unparen(e).(*ast.SelectorExpr)
+			if !isSe || se.Sel.Name != name {
+				return false
 			}
-			ix, isIx := ast.Unparen(as.Lhs[0]).(*ast.IndexExpr)
-			if !isIx {
-				return true
-			}
-			ix2, isIx2 := ast.Unparen(ix.X).(*ast.IndexExpr)
-			if !isIx2 {
-				return true
-			}
-			f := core.FieldOf(info, ix2.X)
-			if f == nil || f.Name() != s.m {
-				return true
-			}
-			isObjField := func(e ast.Expr, name string) bool {
-				se, isSe := ast.Unparen(e).(*ast.SelectorExpr)
-				if !isSe || se.Sel.Name != name {
-					return false
+			id, isID := ast.Unparen(se.X).(*ast.Ident)
+			return isID && info.ObjectOf(id) == prm
+		}
+		// the store m[ns][name] = v, written in place or in a helper that receives the map, the namespace and the name
+		var stores func(g *core.FuncDecl, isMap, isNs, isName func(e ast.Expr) bool, depth int) bool
+		stores = func(g *core.FuncDecl, isMap, isNs, isName func(e ast.Expr) bool, depth int) bool {
+			ginfo := g.Pkg.TypesInfo
+			found := false
+			ast.Inspect(g.Decl.Body, func(n ast.Node) bool {
+				switch x := n.(type) {
+				case *ast.AssignStmt:
+					if len(x.Lhs) != 1 {
+						return true
+					}
+					ix, isIx := ast.Unparen(x.Lhs[0]).(*ast.IndexExpr)
+					if !isIx {
+						return true
+					}
+					ix2, isIx2 := ast.Unparen(ix.X).(*ast.IndexExpr)
+					if !isIx2 {
+						return true
+					}
+					if isMap(ix2.X) && isNs(ix2.Index) && isName(ix.Index) {
+						found = true
+					}
+				case *ast.CallExpr:
+					if depth >= 1 {
+						return true
+					}
+					fn := core.Callee(ginfo, x)
+					hd := p.ByObj[fn]
+					if hd == nil {
+						return true
+					}
+					hsig := fn.Type().(*types.Signature)
+					var pm, pn, pname *types.Var
+					for k, a := range x.Args {
+						if k >= hsig.Params().Len() {
+							break
+						}
+						switch {
+						case isMap(a):
+							pm = hsig.Params().At(k)
+						case isNs(a):
+							pn = hsig.Params().At(k)
+						case isName(a):
+							pname = hsig.Params().At(k)
+						}
+					}
+					if pm == nil || pn == nil || pname == nil {
+						return true
+					}
+					hinfo := hd.Pkg.TypesInfo
+					is := func(v *types.Var) func(e ast.Expr) bool {
+						return func(e ast.Expr) bool {
+							id, isID := ast.Unparen(e).(*ast.Ident)
+							return isID && hinfo.ObjectOf(id) == types.Object(v)
+						}
+					}
+					if stores(hd, is(pm), is(pn), is(pname), depth+1) {
+						found = true
+					}
 				}
-				id, isID := ast.Unparen(se.X).(*ast.Ident)
-				return isID && info.ObjectOf(id) == prm
-			}
-			if isObjField(ix2.Index, "Namespace") && isObjField(ix.Index, "Name") {
-				ok = true
-			}
-			return true
-		})
+				return true
+			})
+			return found
+		}
+		ok := stores(fd,
+			func(e ast.Expr) bool { f := FieldBehind(fd, e); return f != nil && f.Name() == s.m },
+			func(e ast.Expr) bool { return isObjField(e, "Namespace") },
+			func(e ast.Expr) bool { return isObjField(e, "Name") }, 0)
 		r.Check(ok, rule, fd.Key()+": stored under the object's own namespace and name", p.Pos(fd.Decl.Pos()), s.m+"[obj.Namespace][obj.Name]", "the object is no longer stored under [its namespace][its name]")
 	}
 	// GetSelectedPeers(selector, svc.Namespace) of the same service; the engine filters by namespace equality
@@ -936,4 +1091,18 @@ func IngressNamespaceScoping(p *core.Program, r *core.Report, rule string) {
 		r.Check(found && ok, rule, fd.Key()+": connections of a workload reached several times are accumulated by Union", p.Pos(fd.Decl.Pos()), "if absent: store; else: Union", "the store-or-Union pattern on the per-workload entry changed: a later Ingress/Route/Service overwrites or drops the earlier ones")
 	}
 	r.Floor(rule, 10)
+}
+
+// objNamed finds the variable of fd with the given name (first declaration).
+func objNamed(fd *core.FuncDecl, name string) types.Object {
+	var obj types.Object
+	ast.Inspect(fd.Decl, func(n ast.Node) bool {
+		if id, ok := n.(*ast.Ident); ok && id.Name == name && obj == nil {
+			if o, isV := fd.Pkg.TypesInfo.ObjectOf(id).(*types.Var); isV && !o.IsField() {
+				obj = o
+			}
+		}
+		return obj == nil
+	})
+	return obj
 }
